@@ -27,6 +27,8 @@ type Model struct {
 	typeIDs     map[string]int
 	typeIDList  []string
 	arrSorts    map[Sort]bool
+	classes     map[string]int
+	classNames  []string
 }
 
 type StructInfo struct {
@@ -127,7 +129,12 @@ func (m *Model) structSort(name string, st *types.Struct, gt types.Type) Sort {
 
 func (m *Model) Struct(s Sort) *StructInfo { return m.structs[string(s)] }
 
-func (si *StructInfo) Sel(i int) string { return si.Name + "__" + mangle(si.Fields[i].Name) }
+func (si *StructInfo) Sel(i int) string {
+	if si.Fields[i].Name == "_" {
+		return fmt.Sprintf("%s__blank%d", si.Name, i)
+	}
+	return si.Name + "__" + mangle(si.Fields[i].Name)
+}
 func (si *StructInfo) Ctor() string     { return "mk_" + si.Name }
 func (si *StructInfo) FieldIndex(name string) int {
 	for i, f := range si.Fields {
@@ -213,6 +220,92 @@ func anySel(ctor string) string {
 func boxFn(s Sort) (string, string) {
 	n := mangle(string(s))
 	return "box_" + n, "unbox_" + n
+}
+
+// canon: canonical text of a type for heap classes (two types convertible into each other
+// have equal canon of their underlying element structure).
+func canon(t types.Type) string {
+	t = types.Unalias(t)
+	switch u := t.(type) {
+	case *types.Named:
+		s := u.Obj().Name()
+		if u.Obj().Pkg() != nil {
+			s = u.Obj().Pkg().Path() + "." + s
+		}
+		if ta := u.TypeArgs(); ta != nil {
+			var as []string
+			for i := 0; i < ta.Len(); i++ {
+				as = append(as, canon(ta.At(i)))
+			}
+			s += "[" + strings.Join(as, ",") + "]"
+		}
+		return s
+	case *types.Basic:
+		switch u.Kind() {
+		case types.Uint8:
+			return "uint8"
+		case types.Int32:
+			return "int32"
+		case types.UntypedString:
+			return "string"
+		case types.UntypedInt:
+			return "int"
+		case types.UntypedBool:
+			return "bool"
+		case types.UntypedFloat:
+			return "float64"
+		}
+		return u.Name()
+	case *types.Pointer:
+		return "*" + canon(u.Elem())
+	case *types.Slice:
+		return "[]" + canon(u.Elem())
+	case *types.Array:
+		return fmt.Sprintf("[%d]%s", u.Len(), canon(u.Elem()))
+	case *types.Map:
+		return "map[" + canon(u.Key()) + "]" + canon(u.Elem())
+	case *types.Interface:
+		if u.NumMethods() == 0 && u.NumEmbeddeds() == 0 {
+			return "any"
+		}
+		return u.String()
+	case *types.TypeParam:
+		return "tparam:" + u.Obj().Name()
+	}
+	return t.String()
+}
+
+func (m *Model) classID(s string) string {
+	if m.classes == nil {
+		m.classes = map[string]int{}
+	}
+	if id, ok := m.classes[s]; ok {
+		return fmt.Sprintf("c%d", id)
+	}
+	id := len(m.classes) + 1
+	m.classes[s] = id
+	m.classNames = append(m.classNames, s)
+	return fmt.Sprintf("c%d", id)
+}
+
+// MapHeaps: names of the content and domain heaps of a map type.
+func (m *Model) MapHeaps(t types.Type) (mh, dh string, ks, vs Sort, mt *types.Map) {
+	mt = types.Unalias(t).Underlying().(*types.Map)
+	ks, vs = m.SortOf(mt.Key()), m.SortOf(mt.Elem())
+	cl := m.classID("map[" + canon(mt.Key()) + "]" + canon(mt.Elem()))
+	return "M|" + string(ks) + "|" + string(vs) + "|" + cl, "D|" + string(ks) + "|" + string(vs) + "|" + cl, ks, vs, mt
+}
+
+// SliceHeap: name of the element heap for slices/arrays with this element type.
+func (m *Model) SliceHeap(elem types.Type) (string, Sort) {
+	es := m.SortOf(elem)
+	return "S|" + string(es) + "|" + m.classID("[]"+canon(elem)), es
+}
+
+// CellHeap: heap of pointers to a non-struct type.
+func (m *Model) CellHeap(elem types.Type) (string, Sort) {
+	es := m.SortOf(elem)
+	return "H|" + string(es) + "|" + m.classID("*"+canon(elem)), es
 }
 
 // zero value term of a sort
